@@ -4,11 +4,13 @@
 //	S <gap> <tok>*     plain data value (tokens as in the Lean driver) stringified with indent
 //	                   -> "N=<r> O=<r> MJ=<same|DIFF…|na> [X=<explanation>]"
 //	                      N = native JSON.stringify, O = spec oracle (prelude.js), r = ok:<hex> | undef | throw:<name>
+//	SL <gap> <n> <item>*n <tok>*   the same with a replacer allow-list (items: s<hex> strings, n<hex> numbers)
 //	J|JF <hex js source>  exotic case (JF = fresh runtimes: the case touches prototypes): the source defines mk() returning [value, replacer, space] and may push to LOG;
 //	                   native and oracle run in separate fresh runtimes, results and LOG compared
 //	                   -> same fields; result r = <res>|<hex of LOG.join(",")>
 //	V|VF <hex js source>  reviver case: mk() returns [text, reviver]; JSON.parse vs the InternalizeJSONProperty oracle,
 //	                   structural dump of the result (holes, descriptors) + LOG
+//	RV <hex text> D <s-key>* Z <s-key>*   pure reviver of the Lean model (undefined for D keys, null for Z keys)
 //	Q <hex>            JSON.stringify(string) -> "ok <hex>"
 //
 // X (only when N != O): which known deviation(s) reproduce N exactly when emulated in the oracle
@@ -442,17 +444,38 @@ func doCase(mk mkFn, withLog bool, doMJ bool) string {
 	return out
 }
 
-func doS(ws []string) string {
+func doS(ws []string, withList bool) string {
 	pooling = true
 	defer func() { pooling = false }()
 	if len(ws) < 2 {
 		return "bad"
 	}
 	gapTok, toks := ws[0], ws[1:]
+	var listToks []string
+	if withList {
+		n, err := strconv.Atoi(toks[0])
+		if err != nil || n < 0 || len(toks) < 1+n {
+			return "bad"
+		}
+		listToks = toks[1 : 1+n]
+		toks = toks[1+n:]
+	}
 	mk := func(r *rt) (goja.Value, goja.Value, goja.Value, bool) {
 		v, rest, ok := r.readVal(toks)
 		if !ok || len(rest) != 0 {
 			return nil, nil, nil, false
+		}
+		var repl goja.Value = goja.Undefined()
+		if withList {
+			items := make([]interface{}, 0, len(listToks))
+			for _, t := range listToks {
+				iv, rest2, ok := r.readVal([]string{t}) // s<hex> string item, n<hex> number item
+				if !ok || len(rest2) != 0 {
+					return nil, nil, nil, false
+				}
+				items = append(items, iv)
+			}
+			repl = r.vm.NewArray(items...)
 		}
 		var space goja.Value
 		switch gapTok[0] {
@@ -471,7 +494,7 @@ func doS(ws []string) string {
 		default:
 			return nil, nil, nil, false
 		}
-		return v, goja.Undefined(), space, true
+		return v, repl, space, true
 	}
 	return doCase(mk, false, true)
 }
@@ -555,6 +578,42 @@ func doA(arg string) string {
 	return fmt.Sprintf("sysdelta=%d perslot=%d res=%s", m1.Sys-m0.Sys, (m1.Sys-m0.Sys)/uint64(L+1), res)
 }
 
+// RV <hex text> D <s-key>* Z <s-key>*: JSON.parse with the pure reviver of the Lean model (same answer format as the driver)
+func doRV(ws []string) string {
+	if len(ws) < 2 || ws[1] != "D" {
+		return "bad"
+	}
+	units, ok := unhex(ws[0])
+	if !ok {
+		return "bad"
+	}
+	if parseRT == nil {
+		parseRT = newRT()
+	}
+	r := parseRT
+	var D, Z []interface{}
+	cur := &D
+	for _, t := range ws[2:] {
+		if t == "Z" {
+			cur = &Z
+			continue
+		}
+		if len(t) == 0 || t[0] != 's' {
+			return "bad"
+		}
+		u, ok := unhex(t[1:])
+		if !ok {
+			return "bad"
+		}
+		*cur = append(*cur, jsString(r, u))
+	}
+	v, err := r.fn("reviveCase")(goja.Undefined(), jsString(r, units), r.vm.NewArray(D...), r.vm.NewArray(Z...))
+	if err != nil {
+		return "reserr:" + common.OneLine(err.Error())
+	}
+	return v.String()
+}
+
 func doQ(h string) string {
 	units, ok := unhex(h)
 	if !ok {
@@ -592,7 +651,11 @@ func main() {
 			}
 			return doParse(ws[1])
 		case "S":
-			return doS(ws[1:])
+			return doS(ws[1:], false)
+		case "RV":
+			return doRV(ws[1:])
+		case "SL":
+			return doS(ws[1:], true)
 		case "J":
 			if len(ws) != 2 {
 				return "bad"
